@@ -589,7 +589,11 @@ func encodeInfoElementValueToBuff(element InfoElementWithValue, buffer []byte, i
 		// TODO: RFC 7011 has extra spec for these data types. Need to follow that
 		return fmt.Errorf("API does not support micro and nano seconds types yet")
 	case MacAddress:
-		copy(buffer[index:], element.GetMacAddressValue())
+		v := element.GetMacAddressValue()
+		if len(v) != int(InfoElementLength[MacAddress]) {
+			return fmt.Errorf("provided MAC address %v is not of correct length", v)
+		}
+		copy(buffer[index:], v)
 	case Ipv4Address:
 		if ipv4Add := element.GetIPAddressValue().To4(); ipv4Add != nil {
 			copy(buffer[index:], ipv4Add)
